@@ -119,6 +119,21 @@ N_PD_TOTAL = {"stem": "ptrace_dumper", "filter": "c02", "tiers": Q, "tests": {
     "c02_get_stack_info_top_of_address_space": H("B'", "PtraceDumper::get_stack_info", "4 stack pointers within 1 MiB of usize::MAX"),
     "c02_short_stack_copy_does_not_panic": H("B'", "MappingInfo::stack_has_pointer_to_mapping", "stack copies of 0..=7 bytes"),
 }}
+N_TLS = {"stem": "thread_list_stream", "filter": "", "tiers": Q, "tests": {
+    "bprime_stack_region_for_every_sp_offset": H("B'", "fill_thread_stack (on this process's own memory)", "516 in-page sp offsets x {no limit, 2 KiB limit} + 3 sp positions below the mapping"),
+    "c20_ip_at_end_of_principal_mapping_is_outside": H("B'", "fill_thread_stack", "ip == end of the principal mapping, all-zero stack"),
+}}
+N_C09 = {"name": "c09_dest", "tiers": Q, "tests": {
+    "bprime_destination_equals_image_for_every_short_history": H("B'", "DirSection (real std::io::Cursor)", "every sequence of <= 4 ops from 5 kinds x 3 start offsets x 3 prefills")}}
+TWINS_STACK = {
+    "fill_thread_stack": ["native:thread_list_stream::bprime_stack_region_for_every_sp_offset", "native:thread_list_stream::c20_ip_at_end_of_principal_mapping_is_outside"],
+    "get_stack_info": ["native:ptrace_dumper::c02_get_stack_info_top_of_address_space"],
+}
+TWINS_DIR = {
+    "new": ["native:c09_dest::bprime_destination_equals_image_for_every_short_history"],
+    "dump_dir_entry": ["native:c09_dest::bprime_destination_equals_image_for_every_short_history", "native:c10_prefix::every_prefix_is_consistent"],
+    "write_to_file": ["native:c09_dest::bprime_destination_equals_image_for_every_short_history", "native:c10_prefix::every_prefix_is_consistent"],
+}
 N_SANITIZE = {"stem": "ptrace_dumper", "filter": "", "tiers": Q, "tests": {
     "bprime_sanitize_small_domain": H("B'", "PtraceDumper::sanitize_stack_copy", "17 boundary words ^2 x 3 tail lengths x 8 sp offsets x 2 mapping orders = 13 872 inputs"),
     "c12_small_negative_integer_survives": H("B'", "PtraceDumper::sanitize_stack_copy", "words -5, -4096, 4096, -4097, 4097"),
@@ -160,7 +175,9 @@ PLAN["C09"] = {
                    "generic in the Write+Seek destination (std::io semantics assumed as in verus/prelude/std_io.rs)",
     "verus": [{"unit": "dir_section", "functions": ["new", "position", "dump_dir_entry", "write_to_file"], "tags": ["C09"], "tiers": Q}],
     "kani": [],
-    "trusted": ["verus/prelude/std_io.rs: model of std::io::{Write,Seek} on a seekable byte sink",
+    "native_files": [N_C09],
+    "twins": TWINS_DIR,
+    "trusted": ["verus/prelude/std_io.rs: model of std::io::{Write,Seek} on a seekable byte sink (cross-checked against std::io::Cursor by the native twin)",
                 "callers keep the invariant between calls (the image only grows, or is patched beyond the flushed prefix): generate_dump itself is outside Verus's reach"],
     "samples": ["write_to_file ensures Ok => inv && last == |image|; always frame(old dest, new dest, start, |image|)",
                 "new ensures start == destination position on entry, destination contents untouched"],
@@ -173,6 +190,7 @@ PLAN["C10"] = {
                    "flushed bytes never change except directory slots (C09 contracts); generate_dump emits entries only through write_to_file (Kani, thorough)",
     "verus": [{"unit": "dir_section", "functions": ["new", "dump_dir_entry", "write_to_file"], "tags": ["C10"], "tiers": Q}],
     "kani": [{"tiers": T, "jobs": 2, "timeout": 5400, "mem_gb": 24, "harnesses": K_GENERATE}],
+    "twins": TWINS_DIR,
     "native_files": [{"name": "c10_prefix", "tiers": Q, "tests": {
         "every_prefix_is_consistent": H("B'", "DirSection (real std::io::Cursor destination, snapshot after every write)", "start offsets 0 and 7, 2 streams of 40 bytes")}}],
     "trusted": ["verus/prelude/std_io.rs: model of std::io::{Write,Seek}; a crash inside one write_all call is outside the statement",
@@ -189,6 +207,8 @@ PLAN["C06"] = {
     "verus": [dict(STACK, functions=["get_stack_info", "fill_thread_stack", "contains_address", "end_address"], tags=["C06"])],
     "kani": [{"tiers": Q, "jobs": 4, "timeout": 900, "harnesses": K_FIND},
              {"tiers": T, "jobs": 3, "timeout": 3600, "mem_gb": 24, "harnesses": dict(K_TLS_CAP, **K_TLS)}],
+    "native": [N_TLS],
+    "twins": TWINS_STACK,
     "trusted": ["copy_from_process satisfies copy_ok (C17 decides it for the ptrace strategy; assumed for process_vm_readv and /proc/pid/mem)",
                 "find_mapping / may_be_stack contracts are assumed in Verus (iterator adapter, bitflags operator) and checked by Kani (2 mappings)"],
     "samples": ["get_stack_info ensures: is_first(k, page(sp)) && stack_like(maps[k]) ==> Ok && v == page(sp) && v+len == end(maps[k])",
@@ -204,6 +224,8 @@ PLAN["C07"] = {
     "kani": [{"tiers": Q, "jobs": 2, "timeout": 900, "harnesses": {
                  "vk_app_memory_two_regions": H("B", "app_memory::write", "2 requests, symbolic addresses, lengths 1..=3")}},
              {"tiers": T, "jobs": 2, "timeout": 3600, "mem_gb": 24, "harnesses": {"vk_tls_crash_context_thread": K_TLS["vk_tls_crash_context_thread"]}}],
+    "native": [N_TLS],
+    "twins": TWINS_STACK,
     "trusted": ["copy_from_process satisfies copy_ok (see C17)",
                 "alloc_from_array contract assumed in Verus, checked by Kani (C16 group)"],
     "samples": ["memory_list_stream::write ensures: size == 4 + 16*n; element i == ser(memory_blocks[i])"],
@@ -217,6 +239,8 @@ PLAN["C20"] = {
     "verus": [dict(STACK, functions=["fill_thread_stack", "crash_thread_references_principal_mapping"], tags=["C20"])],
     "kani": [{"tiers": Q, "jobs": 4, "timeout": 900, "harnesses": K_HAS_PTR},
              {"tiers": T, "jobs": 2, "timeout": 5400, "mem_gb": 24, "harnesses": dict(K_DUMP, **{"vk_has_ptr_len24": H("B", "MappingInfo::stack_has_pointer_to_mapping", "24-byte symbolic stack copy")})}],
+    "native": [N_TLS],
+    "twins": TWINS_STACK,
     "trusted": ["stack_has_pointer_to_mapping's contract (has_ptr) is assumed in Verus (byteorder) and checked by Kani at stated lengths"],
     "samples": ["fill_thread_stack ensures: skip && principal is Some && included ==> ip_in(pm, ip) || exists bytes. copy_ok(..) && has_ptr(bytes, ..)  [C20]"],
 }
@@ -352,11 +376,11 @@ PLAN["C11"] = {
                    "best-effort writer fails, leaves an unused entry and records exactly one soft error per failed step (complete relative to stubs, thorough)",
     "verus": [],
     "kani": [{"tiers": Q, "jobs": 2, "timeout": 900, "harnesses": K_SUSPEND_THREADS},
-             {"tiers": T, "jobs": 2, "timeout": 5400, "mem_gb": 28, "harnesses": dict(K_GENERATE, **{
-                 "vk_init_best_effort_steps": H("C", "PtraceDumper::init (4 best-effort steps, all 16 failure combinations)")})}],
+             {"tiers": T, "jobs": 2, "timeout": 5400, "mem_gb": 24, "harnesses": K_GENERATE}],
     "native": [{"stem": "minidump_writer", "filter": "", "tiers": Q, "tests": {
         "bprime_soft_error_stream_is_wellformed_json": H("B'", "write_soft_errors", "every subset of 6 representative soft errors (64)")}}],
-    "trusted": ["serde_json / error-graph serialisation beyond the 64 enumerated lists"],
+    "trusted": ["serde_json / error-graph serialisation beyond the 64 enumerated lists",
+                "PtraceDumper::init: the harness vk_init_best_effort_steps (kani/proofs/ptrace_dumper.rs) exhausts 30 GB in CBMC (error-list drop glue) and is not part of any tier: init's four best-effort steps are NOT decided"],
     "samples": ["vk_generate_dump_control_flow: SOFT_ERRORS_SEEN == FAILED_BEST_EFFORT && ZERO_ENTRIES >= FAILED_BEST_EFFORT"],
 }
 
@@ -369,7 +393,9 @@ PLAN["C18"] = {
         "vk_memory_protection_table": H("C", "memory_info_list_stream::get_memory_protection"),
         "vk_direct_auxv_from": H("C", "From<DirectAuxvDumpInfo> for AuxvDumpInfo")}}],
     "native": [{"stem": "auxv", "filter": "", "tiers": Q, "tests": {
-        "bprime_direct_auxv_values_take_precedence": H("B'", "AuxvDumpInfo::try_filling_missing_info", "16 subsets of supplied keys x 4 keys")}}],
+        "bprime_direct_auxv_values_take_precedence": H("B'", "AuxvDumpInfo::try_filling_missing_info", "16 subsets of supplied keys x 4 keys")}},
+               {"stem": "dso_debug", "filter": "c18", "tiers": Q, "tests": {
+        "c18_linker_list_is_reproduced": H("B'", "dso_debug::write_dso_debug_stream", "one well-formed fake target: 2 program headers, DT_DEBUG, 2 link maps")}}],
     "trusted": ["that the raw streams equal what the kernel reports, handle/mode listing, uname/cpuinfo parsing, the linker list walk: environment, not decided (DESIGN §8)"],
     "samples": ["get_memory_protection(rw-) == PAGE_READWRITE"],
 }
@@ -404,9 +430,10 @@ PLAN["C02"] = {
                {"stem": "maps_reader", "filter": "bprime_so_version", "tiers": Q, "tests": {
                    "bprime_so_version_parse_is_total": H("B'", "SoVersion::parse", "every name lib.so.<s>, s over 8 characters (2 non-ASCII), |s| <= 5: 37 449 names")}},
                {"stem": "mappings", "filter": "", "tiers": Q, "tests": {
-                   "c02_mapped_file_under_dev_is_not_opened": H("B'", "mappings::write", "one mapping named after a FIFO under /dev/shm")}}],
-    "trusted": ["dso_debug::write_dso_debug_stream (index panics on short reads, unbounded link-map walk) is NOT under contract yet: see DESIGN §5 D10",
-                "wall-clock behaviour of syscalls is not decided; 'bounded time' is loop termination of the listed functions",
+                   "c02_mapped_file_under_dev_is_not_opened": H("B'", "mappings::write", "one mapping named after a FIFO under /dev/shm")}},
+               {"stem": "dso_debug", "filter": "bprime", "tiers": Q, "timeout": 600, "tests": {
+                   "bprime_corrupt_linker_data_never_panics_or_hangs": H("B'", "dso_debug::write_dso_debug_stream (fake target in this process)", "29 corruptions of auxv values, program headers, dynamic section, r_debug and the link-map chain; 5 s bound per call")}}],
+    "trusted": ["wall-clock behaviour of syscalls is not decided; 'bounded time' is loop termination of the listed functions",
                 "get_ppid_and_tgid's line parser is file-backed: not covered"],
     "samples": ["get_stack_info: decreases usize::MAX - stack_pointer; no arithmetic overflow for any int_stack_pointer",
                 "Buffer::write_at: inserted assert offset <= offset + to_write <= len (slice bounds)"],
